@@ -226,6 +226,12 @@ def isActive (s : State) : Bool := decide (s.phase = .active)
 def isOperational (s : State) : Bool :=
   decide (s.phase = .nascent) || decide (s.phase = .active) || decide (s.phase = .senescent)
 
+/-- `get_age()`: time since the start (`None` for a lifecycle that has no start time) -/
+def age (s : State) : Option Nat :=
+  match s.started with
+  | none => none
+  | some t0 => some (s.now - t0)
+
 /-- `get_status().operations_remaining` -/
 def opsRemaining (s : State) : Int := s.length
 
